@@ -17,6 +17,12 @@ def spec(tier):
     # success iff all operators completed, for multi-segment operators whose trailing segment may round to zero ticks
     obs.append(CH(name="outcome_states", harness="c09.outcome_states",
                   sym=dict(r0=I(0, 25), d0=I(0, 1), r1=I(0, 25), d1=I(0, 1), dy=I(0, 2), alloc=I(1, 6), my=I(0, 7)), fixed={}, timeout=900))
+    # the same with memory overcommit switched on (a container over its own allocation still ends, as a failure)
+    obs.append(CH(name="outcome_states_overcommit", harness="c09.outcome_states",
+                  sym=dict(r0=I(0, 25), d0=I(0, 1), r1=I(0, 25), d1=I(0, 1), dy=I(0, 2), alloc=I(1, 6), my=I(0, 7)), fixed=dict(oc=True), timeout=900))
+    obs.append(CH(name="outcomes_P1_q00_overcommit", harness="c09.ledger",
+                  sym=dict(t1=I(0, 2), t2=I(1, 2), d0=I(1, 2), m0=I(9, 12), m1=I(9, 12), sus_t=I(-1, 3)),
+                  fixed=dict(P=1, q0=0, q1=0, q2=0, d1=1, d2=2, m2=1, sus_pool=0, K=7, oc=True), timeout=900))
     osym = dict(r1=I(0, 25), d1=I(0, 1), alloc=I(1, 6), my=I(0, 7))
     obs.append(twin("outcome_fail", "c09.outcome_states", osym, dict(r0=20, d0=1, dy=1), "fail"))
     obs.append(twin("outcome_zero_tick_tail", "c09.outcome_states", osym, dict(r0=20, d0=1, dy=1), "zero_tick_tail"))
